@@ -18,6 +18,10 @@ representative per class of its input partition, in a closed stub world:
   normalisation (sorting, de-duplication, case folding, stripping) of a value on its way to the library is visible,
 * sets of the evaluated program iterate in one fixed arbitrary order (HSet): a result that depends on set order is the
   same in every run of the check, whatever PYTHONHASHSEED is,
+* laziness as in the language: a generator function returns a generator object whose body is interpreted only while
+  it is consumed (GenStub, hand-over thread), generator expressions and zip / map / filter / enumerate / reversed are
+  lazy too - an edit that happens only inside a lazy object happens as far as the object is consumed, not where it is
+  written,
 * state: the calls of a sequence are evaluated in one world (memoising decorators and module-level containers live in
   it) and compared with the same calls in fresh worlds; mutable parts of a result are emptied by the 'caller' between
   the calls.  Tests and handlers that were taken are recorded as events - used only to explain a violation (the test
